@@ -50,6 +50,7 @@ class Built:
         self.nodes = nodes  # nodes[i] = Node for model id i (1-based), nodes[0] = None
         self.fl = fl
         self.mk = mk  # number of meta keys in the model
+        self.meta_dicts = {}  # update_meta(): the caller keeps and re-uses its dict objects
 
     def node(self, i):
         return self.tree if i == 0 else self.nodes[i]
@@ -77,6 +78,8 @@ def build(st: dict, fl: Flavour, mk=1, name=None, node_ids=None) -> Built:
             kw["kind"] = fl.kind(st["knd"][i - 1])
         if node_ids and i in node_ids:
             kw["node_id"] = node_ids[i]
+        elif hasattr(fl, "node_id_for") and name != "src":
+            kw["node_id"] = fl.node_id_for(i)
         node = parent_obj.add(fl.data(d), **kw)
         nodes[i] = node
         m = st["meta"][i - 1] if st.get("meta") else []
@@ -343,8 +346,14 @@ def execute(b: Built, op: dict, src: Built | None = None, foreign_tree=None):
             elif name == "clear_meta":
                 r = b.nodes[op["x"]].clear_meta(META_KEYS[op["key"]] if op["key"] else None)
             elif name == "update_meta":
-                m = {META_KEYS[k]: v for k, v in enumerate(seq(op["m"]), 1) if v}
+                key = tuple(seq(op["m"]))
+                if key not in b.meta_dicts:   # one dict object per content, passed again and again (aliasing!)
+                    b.meta_dicts[key] = {META_KEYS[k]: v for k, v in enumerate(key, 1) if v}
+                m = b.meta_dicts[key]
+                before = dict(m)
                 r = b.nodes[op["x"]].update_meta(m, replace=op["replace"])
+                if m != before:
+                    raise RuntimeError("harness: update_meta() modified the dict passed by the caller")
             elif name == "filter":
                 pred = make_predicate(b, seq(op["v"]), raise_form=op.get("raise", False))
                 r = b.node(op["p"]).filter(pred)
